@@ -409,3 +409,8 @@ pub fn replay(_ctx: &Ctx, case: &Value) -> Result<Vec<Finding>, String> {
     let c: Case = serde_json::from_value(case.clone()).map_err(|e| format!("bad C13 case: {e}"))?;
     Ok(eval(&c).0)
 }
+
+/// seed encodings for C15
+pub fn build_public(ty: &str, pattern: u32, variant: u8) -> Result<(Vec<u8>, String), String> {
+    build(ty, pattern & ((1u32 << optional_keys(ty).len()) - 1), variant)
+}
